@@ -1,8 +1,8 @@
 //! Produces `$OUT_DIR/stream_scaled.rs` from the REAL
 //! /repo/node/components/network/src/noise/stream.rs (or from `$VERIF_STREAM_RS`, used to validate
 //! the harnesses against known-bad variants of the file) on every build:
-//!   (a) the leading `//!` inner-doc lines are dropped (an `include!`d file inside `mod stream {}`
-//!       cannot start with inner docs);
+//!   (a) the leading `//!` inner-doc lines are replaced by empty `//` comment lines (an `include!`d
+//!       file inside `mod stream {}` cannot start with inner docs; line numbers are preserved);
 //!   (b) EXACTLY ONE textual substitution: `const MAX_TRANSPORT_MSG_LEN: usize = 65535;` becomes
 //!       `const MAX_TRANSPORT_MSG_LEN: usize = <SCALED_MAX_TRANSPORT_MSG_LEN>;`.
 //! Every other byte of the file is untouched. The build FAILS (=> the runner reports inconclusive)
